@@ -1,12 +1,12 @@
 SPECIFICATION Spec
 CONSTANTS
-  MaxNodes = 3
+  MaxNodes = 4
   Keys = {"k1"}
   Vals = {"v1"}
   Deadlines = {1, 2, 3}
-  Timeouts = {}
-  MaxNow = 3
-  Kinds = {"cancel", "deadline"}
+  Timeouts = {1}
+  MaxNow = 2
+  Kinds = {"cancel", "deadline", "timeout", "value"}
   Deviation = "none"
 INVARIANTS Inv
 PROPERTIES Sticky CancelExact Idempotent Immutable
